@@ -67,7 +67,8 @@ CFG = {
                   "Round 3 (Props/C19Exec.lean, Props/C19Pager.lean, Witness/F119i.lean): Model/DynExec.lean interprets every method body "
                   "of Gen/DynSkel.lean; proved for ALL inputs: draw_body_eq_model (Draw incl. insertChildren call, cursor gutter, wants-cursor "
                   "block, re-anchoring loop = DynList.draw Facts.fixed, same panics), insert_children_body_eq_model, handle_event_body_eq_model, "
-                  "capture_event_body_eq_model (every event), dyn_selected_on_top_gutter, pager_line_reachable_by_scrolling, "
+                  "capture_event_body_eq_model (every event), history_body_eq_model (whole histories with item replacement executed from the bodies = the "
+                  "model's histories, never failing), dyn_selected_on_top_gutter, pager_line_reachable_by_scrolling, "
                   "pager_screen_lines_once, pager_pages_cover_text, zero_heights_draw_all + endless_builder_never_returns (F119i). So the "
                   "step from the regenerated syntax to Model/DynList.lean is no longer a transcription: it is a theorem (via skeleton_* and "
                   "the kernel-evaluated parser); validated by correspondence only: that the interpreter's semantics is Go's for this subset "
